@@ -23,7 +23,7 @@ ASSUMPTIONS = ['scaling modes other than minmax-scale can only be installed by r
                '(per-call and YAML routes merge into height_scale_kwargs), so route equivalence is checked for minmax-scale',
                'the packaged YAML is parsed independently with ruamel.yaml as the reference for reset']
 REQUIRED = ['routes_4', 'yaml_route', 'poisoned_global', 'unknown_key_warning', 'none_override', 'reset_all_after_nested_edit',
-            'reset_subset_after_nested_edit', 'reset_unknown_name', 'nested_override']
+            'reset_subset_after_nested_edit', 'reset_unknown_name', 'nested_override', 'dict_subclass_sections']
 SIZES = {'quick': dict(scenes=110, subsets=200), 'thorough': dict(scenes=1500, subsets=2 ** 14)}
 EXHAUSTIVE = {'thorough': 'all 2^14 subsets of the top-level parameter names passed to reset_prms (reset part only)'}
 
@@ -124,6 +124,18 @@ def check_routes(desc):
         return ampycloud.run(df)
     run_route('yaml', r3)
     tags.add('yaml_route')
+    # (1b) per call, nested sections given as dict subclasses (OrderedDict / ruamel CommentedMap)
+    import collections
+    from ruamel.yaml.comments import CommentedMap
+
+    def as_sub(d, cls):
+        out = cls()
+        for k, v in d.items():
+            out[k] = as_sub(v, cls) if isinstance(v, dict) else copy.deepcopy(v)
+        return out
+    cls = collections.OrderedDict if desc['i'] % 2 else CommentedMap
+    run_route('per_call_dict_subclass', lambda: ampycloud.run(df, prms=as_sub(p, cls)))
+    tags.add('dict_subclass_sections')
     # (4) every leaf per call, poisoned global
     def r4():
         poison(dynamic.AMPYCLOUD_PRMS)
